@@ -33,6 +33,9 @@ def run(ctx: Ctx):
     check_simplex_verdicts(ctx)
     check_interior(ctx)
     check_no_raising_float_ops(ctx)
+    sl = ctx.func("interior_point", "_step_length")
+    tsl = ast.unparse(sl.node)
+    ctx.ob("C03-O3", "R18 table", sl, "step length = min(1, min over decreasing components of -v/dv), never negative (iterates stay non-negative)", "alpha = 1.0" in tsl and "if dv[j] < -1e-12:\n            alpha = min(alpha, -v[j] / dv[j])" in tsl and "return max(0.0, alpha)" in tsl and "for j in range(n):" in tsl, "", node=sl.node)
     check_pivot_thresholds(ctx)
     check_sign_units(ctx, "simplex", "solve_lp", ["_extract"])
     check_sign_units(ctx, "interior_point", "solve_lp_interior", [])
